@@ -394,6 +394,22 @@ def run_routing(ctx: Ctx, recipe: Dict[str, Any], cid: str) -> Case:
                     vok = "BAD"
             lines.append(f"call {m} sent={','.join(map(str, sent)) or '~'} na={'T' if na else 'F'} rtype={type_token(val)} val={vok}")
             tags.add("call:na" if na else "call:sent")
+        # the caller's own alias list (`services=[...]`) on the methods that accept one
+        import inspect
+        for m, aliases in recipe.get("explicit", []):
+            if m not in methods or "services" not in inspect.signature(getattr(prof, m)).parameters:
+                continue
+            req.posts.clear()
+            try:
+                val = run(getattr(prof, m)(**call_args(m), services=list(aliases)))
+                exc = None
+            except Exception as e:  # noqa: BLE001
+                val, exc = None, exc_token(e)
+            sent = [c for c, _ in req.posts]
+            na = (exc is None and val is None and not sent)
+            lines.append(f"callx {m} {','.join(aliases) or '~'} sent={','.join(map(str, sent)) or '~'} na={'T' if na else 'F'}"
+                         f" exc={exc or '-'}")
+            tags.add("callx:na" if na else "callx:sent")
     return Case(cid, lines, recipe, nontrivial, sorted(tags))
 
 
@@ -553,6 +569,29 @@ def gen_series(rng: random.Random, n: int) -> List[Any]:
     return ops
 
 
+def exh_series(counter: int, seq) -> List[Any]:
+    """one counter follows `seq` (reading kinds), the other readings grow steadily"""
+    cur = 2**31 - 3000
+    ops = []
+    for k, kind in enumerate(seq):
+        raws = [f"ok:{1000 * (k + 1) + j}" for j in range(4)] + ["ok:0", "ok:0"]
+        if kind == "inc":
+            cur += 2048
+            raws[counter] = f"ok:{cur}"
+        elif kind == "eq":
+            raws[counter] = f"ok:{cur}"
+        elif kind == "wrap":
+            cur = cur // 3
+            raws[counter] = f"ok:{cur}"
+        elif kind == "neg":
+            cur = (cur + 2**31 + 5) % 2**32
+            raws[counter] = f"ok:{cur - 2**32 if cur >= 2**31 else -1 - k}"
+        else:
+            raws[counter] = "fail:1" if kind == "fault" else "fail:2"
+        ops.append([(k + 1) * 2 * 10**6, raws])
+    return ops
+
+
 SERIES_CFGS = [
     ([T_IP1, T_CIC, T_L3F], "standard", "std"),
     ([T_PPP, T_CIC], "standard", "std"),
@@ -598,9 +637,23 @@ def generate(ctx: Ctx) -> List[Case]:
                 for variant in ("std", "vendor", "reduced"):
                     if variant == "reduced" and placement in ("wan",):
                         continue
+                    explicit = []
+                    if variant == "std" and placement in ("standard", "root"):
+                        for m in ("async_get_external_ip_address", "async_add_port_mapping", "async_get_status_info"):
+                            for al in (["WANPPPC"], ["WANIPC"], ["WANPPPC", "WANIPC"], ["NOPE", "WANCIC"], [], ["WANPPP"]):
+                                explicit.append([m, al])
                     jobs.append(({"kind": "routing", "types": list(subset), "placement": placement, "variant": variant,
-                                  "ops": "ALL"}, f"g{i}"))
+                                  "ops": "ALL", "explicit": explicit}, f"g{i}"))
                     i += 1
+    # exhaustive: every series of length <= k over the six reading kinds on one counter (others steady)
+    kinds = ["inc", "eq", "wrap", "neg", "fault", "transport"]
+    depth = 4 if ctx.thorough else 3
+    for counter in (range(4) if ctx.thorough else [0, 3]):
+        for n in range(1, depth + 1):
+            for seq in itertools.product(kinds, repeat=n):
+                jobs.append(({"kind": "series", "types": [T_IP1, T_CIC], "placement": "standard", "variant": "std", "t0": 0,
+                              "ops": exh_series(counter, seq)}, f"x{i}"))
+                i += 1
     n_series = 50000 if ctx.thorough else 2000
     for _ in range(n_series):
         types, placement, variant = ctx.rng.choice(SERIES_CFGS)
